@@ -11,6 +11,7 @@ import (
 	"strconv"
 	"strings"
 	"sync"
+	"sync/atomic"
 	"testing"
 	"time"
 
@@ -66,6 +67,7 @@ type c02Cfg struct {
 	to      bool // the periodic readers get a short timeout (tickx / flushx)
 	producers bool // periodic readers get a gate-able external Producer (forced overlap scripts)
 	hooks   bool // every instrument gets a view installing a hook exemplar reservoir (collectx / tickx / flushx)
+	exOn    bool // exemplar filter always-on: the default reservoirs are offered every measurement (values must not change)
 }
 
 // aggregation answers the reader's AggregationSelector.
@@ -273,6 +275,10 @@ type c02Exporter struct {
 	ridx int
 	cfg  c02ReaderCfg
 	sig  chan struct{}
+	// ghost counters of the reader LTS (Otel/C02/ReaderLts.lean): Export calls started / returned, the largest number
+	// seen in flight at once, and the calls started after the harness saw Shutdown return
+	begun, ended, inflight, maxIn, late atomic.Int32
+	shutRet                             atomic.Bool
 }
 
 func (e *c02Exporter) Temporality(k InstrumentKind) metricdata.Temporality {
@@ -283,6 +289,21 @@ func (e *c02Exporter) Temporality(k InstrumentKind) metricdata.Temporality {
 }
 func (e *c02Exporter) Aggregation(k InstrumentKind) Aggregation { return e.cfg.aggregation(k) }
 func (e *c02Exporter) Export(ctx context.Context, rm *metricdata.ResourceMetrics) error {
+	e.begun.Add(1)
+	if e.shutRet.Load() {
+		e.late.Add(1)
+	}
+	n := e.inflight.Add(1)
+	for {
+		m := e.maxIn.Load()
+		if n <= m || e.maxIn.CompareAndSwap(m, n) {
+			break
+		}
+	}
+	defer func() {
+		e.inflight.Add(-1)
+		e.ended.Add(1)
+	}()
 	// a gated export (forced scripts): a slow exporter that honours its context — the payload is accepted only if the
 	// harness releases it before the context ends
 	e.sys.mu.Lock()
@@ -450,6 +471,9 @@ func c02New(cfg c02Cfg) *c02Sys {
 				},
 			})))
 		}
+	}
+	if cfg.exOn {
+		opts = append(opts, WithExemplarFilter(exemplar.AlwaysOnFilter))
 	}
 	s.mp = NewMeterProvider(opts...)
 	m := s.mp.Meter("c02")
